@@ -125,7 +125,9 @@ func (s *Solver) solveAll(obls []*Obligation) {
 		go func() {
 			defer wg.Done()
 			for o := range ch {
-				o.Result = s.solve(o)
+				if o.Result == nil { // discipline obligations are decided by the generator (ssa-dataflow)
+					o.Result = s.solve(o)
+				}
 			}
 		}()
 	}
